@@ -80,6 +80,9 @@ type Unit struct {
 	symAddrs   []*Term
 	recFuel    map[*specFunc]int
 	assertHit  map[*Clause]bool
+	readRec    map[string]bool // probe: memory kinds read
+	probing    int
+	FnName     string // display name when the unit is not a function (lemma)
 }
 
 func (e *Engine) NewUnit(fn *ssa.Function, bc *BoundContract) *Unit {
@@ -137,7 +140,11 @@ func (u *Unit) oblige(st *State, kind, name string, pos token.Pos, goal *Term) {
 func (u *Unit) addObl(o *Obligation) {
 	o.Unit = u
 	o.NHyps = len(u.assumes)
-	o.Fn = u.Fn.String()
+	if u.Fn != nil {
+		o.Fn = u.Fn.String()
+	} else {
+		o.Fn = u.FnName
+	}
 	if u.BC != nil && u.BC.Variant != "" {
 		o.Fn += "[" + u.BC.Variant + "]"
 	}
